@@ -41,7 +41,36 @@ JudgeToBytes(e) ==
 \* informational: the recorded copies follow the specified step sequence
 Drift(e) == e.op = "to_bytes" /\ e.out.k = "ok" /\ e.copies # << >> /\ PlanOf(e) # CopyPlan(MsgOf(e.msg))
 
+(* ---- typed option values (C06) ------------------------------------------ *)
+JudgeUintEnc(e) == IF e.out.k = "ok" /\ e.out.bytes = UintEnc(e.digits) THEN {} ELSE {"C06"}
+JudgeUintDec(e) == LET r == UintDec(e.in, e.w) IN
+                   IF e.out.k = "panic" THEN {"C06"}
+                   ELSE IF r.ok THEN (IF e.out.k = "ok" /\ e.out.digits = r.v THEN {} ELSE {"C06"})
+                   ELSE (IF e.out.k = "err" THEN {} ELSE {"C06"})
+JudgeStr(e) == IF e.out.k = "panic" THEN {"C06"}
+               ELSE IF WellFormed(e.in) THEN (IF e.out.k = "ok" /\ e.out.bytes = e.in THEN {} ELSE {"C06"})
+               ELSE (IF e.out.k = "err" THEN {} ELSE {"C06"})
+
+\* the typed getters logged after a builder call agree with the model, element by element
+TypedOk(e, exp) ==
+  /\ \A i \in 1 .. Len(e.typed) :
+        LET t == e.typed[i] IN
+        /\ t.some = HasNum(exp.opts, t.num)
+        /\ (t.some => /\ Len(t.res) = Len(UintView(exp, t.num, t.w))
+                       /\ \A j \in 1 .. Len(t.res) :
+                            LET r == UintView(exp, t.num, t.w)[j] IN
+                            t.res[j].ok = r.ok /\ (r.ok => t.res[j].digits = r.v)
+                       /\ t.strs = StrView(exp, t.num)
+                       /\ (ValsOf(exp.opts, t.num) = << >> => ~t.first.some)
+                       /\ (ValsOf(exp.opts, t.num) # << >> =>
+                             t.first.some /\ t.first.ok = UintView(exp, t.num, t.w)[1].ok
+                             /\ (t.first.ok => t.first.digits = UintView(exp, t.num, t.w)[1].v)))
+  /\ LET o == ObserveView(exp) IN
+     /\ e.obs.some = o.some
+     /\ (o.some => e.obs.ok = o.r.ok /\ (o.r.ok => e.obs.digits = o.r.v))
+
 JudgeCall(e, exp) ==
+  IF HasField(e, "typed") /\ ~e.panicked /\ MsgOf(e.st) = exp /\ ~TypedOk(e, exp) THEN {"C06"} ELSE
   IF e.panicked \/ MsgOf(e.st) # exp \/ e.st.tkl # Len(exp.tok) THEN {"C01"}
   ELSE LET x == ToBytes(exp, [some |-> FALSE, v |-> 0]) IN
        IF x.k = "ok"
@@ -60,6 +89,11 @@ Step ==
             LET j == JudgeFromBytes(e) IN
             /\ bad' = IF j = {} THEN bad ELSE Append(bad, BadEntry(l, j, "decode"))
             /\ UNCHANGED << pkt, live >>
+       [] e.op \in {"uint_enc", "uint_dec", "str_dec"} ->
+            LET j == IF e.op = "uint_enc" THEN JudgeUintEnc(e)
+                     ELSE IF e.op = "uint_dec" THEN JudgeUintDec(e) ELSE JudgeStr(e) IN
+            /\ bad' = IF j = {} THEN bad ELSE Append(bad, BadEntry(l, j, "typed option value"))
+            /\ UNCHANGED << pkt, live >>
        [] e.op = "to_bytes" ->
             LET j == JudgeToBytes(e) IN
             /\ bad' = IF j = {} THEN bad
@@ -74,7 +108,8 @@ Step ==
                  /\ bad' = IF j = {} THEN bad ELSE Append(bad, BadEntry(l, j, "builder"))
 
 Finish == l = NRec + 1 /\ ~done /\ done' = TRUE /\ UNCHANGED << l, pkt, live, bad >>
-          /\ WriteResult(bad, [drift |-> Cardinality({i \in 1 .. NRec : Drift(Rec[i])})])
+          /\ WriteResult(bad, [drift |-> Cardinality({i \in 1 .. NRec : Drift(Rec[i])}),
+                                    episodes |-> Cardinality({i \in 1 .. NRec : Rec[i].op # "call"})])
 
 Next == Step \/ Finish
 Spec == Init /\ [][Next]_vars
